@@ -14,6 +14,8 @@ import Jmes.Properties.C11
 import Jmes.Properties.C14
 import Jmes.Proofs.C11BStrLemmas
 import Jmes.Proofs.C11BRenameLemmas
+import Jmes.Proofs.C11BValidLemmas
+import Jmes.Proofs.C11BValidLemmas2
 namespace Jmes.C11B
 open Jmes Jmes.Utf8 Jmes.C11
 
@@ -424,12 +426,12 @@ open Jmes.C11R hiding split_sep_codepoints trimLeft_codepoints trimRight_codepoi
 
 /-- the empty string is valid UTF-8 -/
 theorem validUTF8_nil : validUTF8 ([] : Bytes) = true :=
-  by first | exact C11S.validUTF8_nil .. | (apply C11S.validUTF8_nil <;> assumption)
+  C11S.validUTF8_nil
 
 /-- concatenating two valid strings gives a valid string -/
 theorem validUTF8_append {a b : Bytes} (ha : validUTF8 a = true) (hb : validUTF8 b = true) :
     validUTF8 (a ++ b) = true :=
-  by first | exact C11S.validUTF8_append .. | (apply C11S.validUTF8_append <;> assumption)
+  C11S.validUTF8_append ha hb
 
 example : validUTF8 ([0xC3, 0xA9] ++ [0x6C]) = true :=
   validUTF8_append (by decide) (by decide)
@@ -440,46 +442,46 @@ example : validUTF8 ([0x6C] ++ [0xC3]) = false := by decide
 /-- concatenating any number of valid strings gives a valid string -/
 theorem validUTF8_concat {l : List Bytes} (h : ∀ o ∈ l, validUTF8 o = true) :
     validUTF8 (l.foldr (· ++ ·) []) = true :=
-  by first | exact C11S.validUTF8_concat .. | (apply C11S.validUTF8_concat <;> assumption)
+  C11S.validUTF8_concat h
 
 example : validUTF8 ([[0x68], [0xC3, 0xA9], [0x6C]].foldr (· ++ ·) []) = true := by decide
 
 /-- `encodeRune` of ANY number is valid UTF-8: a non-scalar value is written as U+FFFD -/
 theorem validUTF8_encodeRune_any (r : Nat) : validUTF8 (encodeRune r) = true :=
-  by first | exact C11S.validUTF8_encodeRune_any .. | (apply C11S.validUTF8_encodeRune_any <;> assumption)
+  C11S.validUTF8_encodeRune_any r
 
 example : validUTF8 (encodeRune 0xD800) = true := validUTF8_encodeRune_any _
 example : encodeRune 0xD800 = [0xEF, 0xBF, 0xBD] := by decide
 
 /-- `encodeAll` of ANY list of numbers is valid UTF-8 -/
 theorem validUTF8_encodeAll_any (rs : List Nat) : validUTF8 (encodeAll rs) = true :=
-  by first | exact C11S.validUTF8_encodeAll_any .. | (apply C11S.validUTF8_encodeAll_any <;> assumption)
+  C11S.validUTF8_encodeAll_any rs
 
 example : validUTF8 (encodeAll [0x68, 0x110000, 0xE9]) = true := validUTF8_encodeAll_any _
 
 /-- an ASCII string is valid UTF-8 -/
 theorem validUTF8_ascii {s : Bytes} (h : ∀ b ∈ s, b < 0x80) : validUTF8 s = true :=
-  by first | exact C11S.validUTF8_ascii .. | (apply C11S.validUTF8_ascii <;> assumption)
+  C11S.validUTF8_ascii h
 
 example : validUTF8 [0x68, 0x65, 0x6C, 0x6C, 0x6F] = true := validUTF8_ascii (by decide)
 
 /-- `reverse` on a string only ever writes `encodeRune`s: the output is valid whatever the input -/
 theorem valid_reverseRunes (n : Nat) (s : Bytes) : validUTF8 (reverseRunes n s) = true :=
-  by first | exact C11S.valid_reverseRunes .. | (apply C11S.valid_reverseRunes <;> assumption)
+  C11S.valid_reverseRunes n s
 
 example : reverseRunes 3 [0x68, 0xC3, 0x6C] = [0x6C, 0xEF, 0xBF, 0xBD, 0x68] := by decide
 example : validUTF8 (reverseRunes 3 [0x68, 0xC3, 0x6C]) = true := valid_reverseRunes _ _
 
 /-- the forward stepping walk only writes `encodeRune`s -/
 theorem valid_walkFwd (step n : Nat) (s : Bytes) : validUTF8 (walkFwd step n s) = true :=
-  by first | exact C11S.valid_walkFwd .. | (apply C11S.valid_walkFwd <;> assumption)
+  C11S.valid_walkFwd step n s
 
 example : validUTF8 (walkFwd 2 2 [0xC3, 0x68, 0xC3, 0xA9]) = true := valid_walkFwd _ _ _
 example : walkFwd 2 2 [0xC3, 0x68, 0xC3, 0xA9] = [0xEF, 0xBF, 0xBD, 0xC3, 0xA9] := by decide
 
 /-- the backward stepping walk only writes `encodeRune`s -/
 theorem valid_walkBwd (step n : Nat) (s : Bytes) : validUTF8 (walkBwd step n s) = true :=
-  by first | exact C11S.valid_walkBwd .. | (apply C11S.valid_walkBwd <;> assumption)
+  C11S.valid_walkBwd step n s
 
 example : validUTF8 (walkBwd 1 2 [0x68, 0xC3]) = true := valid_walkBwd _ _ _
 example : walkBwd 1 2 [0x68, 0xC3] = [0xEF, 0xBF, 0xBD, 0x68] := by decide
@@ -487,7 +489,7 @@ example : walkBwd 1 2 [0x68, 0xC3] = [0xEF, 0xBF, 0xBD, 0x68] := by decide
 /-- joining valid strings with a valid separator gives a valid string -/
 theorem valid_joinStrs {sep : Bytes} {ss : List Bytes} (hsep : validUTF8 sep = true)
     (h : ∀ o ∈ ss, validUTF8 o = true) : validUTF8 (joinStrs sep ss) = true :=
-  by first | exact C11S.valid_joinStrs .. | (apply C11S.valid_joinStrs <;> assumption)
+  C11S.valid_joinStrs hsep h
 
 example : validUTF8 (joinStrs [0xC3, 0xA9] [[0x68], [0xE2, 0x82, 0xAC], []]) = true :=
   valid_joinStrs (by decide) (by decide)
@@ -496,18 +498,18 @@ example : validUTF8 (joinStrs [0xC3, 0xA9] [[0x68], [0xE2, 0x82, 0xAC], []]) = t
     code point sequence, split by the same (element-polymorphic) function -/
 theorem splitOn_encodeAll (cs ps : List Nat) (hcs : Scalars cs) (hps : Scalars ps) (hne : ps ≠ []) (n : Option Nat) :
     splitOn (encodeAll cs) (encodeAll ps) n = (splitOn cs ps n).map encodeAll :=
-  by first | exact C11S.splitOn_encodeAll .. | (apply C11S.splitOn_encodeAll <;> assumption)
+  C11S.splitOn_encodeAll cs ps hcs hps hne n
 
 /-- every piece of a split consists of elements of the string: pieces of scalar values are scalar values -/
 theorem splitOn_scalars (cs ps : List Nat) (hcs : Scalars cs) (n : Option Nat) : ∀ o ∈ splitOn cs ps n, Scalars o :=
-  by first | exact C11S.splitOn_scalars .. | (apply C11S.splitOn_scalars <;> assumption)
+  C11S.splitOn_scalars cs ps hcs n
 
 example : ∀ o ∈ splitOn helloWorld [0xF6] none, Scalars o := splitOn_scalars _ _ helloWorld_scalars _
 
 /-- `split` of a valid string on a valid non-empty separator gives valid strings -/
 theorem valid_splitOn {s p : Bytes} (hs : validUTF8 s = true) (hp : validUTF8 p = true) (hne : p ≠ []) (n : Option Nat) :
     ∀ o ∈ splitOn s p n, validUTF8 o = true :=
-  by first | exact C11S.valid_splitOn .. | (apply C11S.valid_splitOn <;> assumption)
+  C11S.valid_splitOn hs hp hne n
 
 example : ∀ o ∈ splitOn (encodeAll helloWorld) [0xC3, 0xB6] (some 1), validUTF8 o = true :=
   valid_splitOn (Utf8.validUTF8_encodeAll _ helloWorld_scalars) (by decide) (by decide) _
@@ -518,7 +520,7 @@ example : splitOn [0xC3, 0xA9] [0xA9] none = [[0xC3], []] := by decide
     valid strings -/
 theorem valid_splitRunes {s : Bytes} (hs : validUTF8 s = true) (n : Option Nat) :
     ∀ o ∈ splitRunes s n, validUTF8 o = true :=
-  by first | exact C11S.valid_splitRunes .. | (apply C11S.valid_splitRunes <;> assumption)
+  C11S.valid_splitRunes hs n
 
 example : splitRunes (encodeAll C11.hello) (some 2) = [[0x68], [0xC3, 0xA9], [0x6C, 0x6C, 0x6F]] := by decide
 example : ∀ o ∈ splitRunes (encodeAll C11.hello) (some 2), validUTF8 o = true :=
@@ -527,18 +529,18 @@ example : ∀ o ∈ splitRunes (encodeAll C11.hello) (some 2), validUTF8 o = tru
 /-- what `splitOn` means on any lists (code points or bytes): joining the pieces with the separator gives the
     string back -/
 theorem splitOn_join (s p : List Nat) (hne : p ≠ []) : joinStrs p (splitOn s p none) = s :=
-  by first | exact C11S.splitOn_join .. | (apply C11S.splitOn_join <;> assumption)
+  C11S.splitOn_join s p hne
 
 /-- the same with a limit on the number of splits -/
 theorem splitOn_join_limit (s p : List Nat) (n : Option Nat) : joinStrs p (splitOn s p n) = s :=
-  by first | exact C11S.splitOn_join_limit .. | (apply C11S.splitOn_join_limit <;> assumption)
+  C11S.splitOn_join_limit s p n
 
 example : joinStrs [0xF6] (splitOn helloWorld [0xF6] none) = helloWorld := splitOn_join _ _ (by decide)
 example : splitOn ([] : List Nat) [0xF6] none = [[]] := by decide
 
 /-- no piece of an unlimited split contains the separator (on any lists: code points or bytes) -/
 theorem splitOn_no_sep (s p : List Nat) (hne : p ≠ []) : ∀ o ∈ splitOn s p none, indexOf o p = none :=
-  by first | exact C11S.splitOn_no_sep .. | (apply C11S.splitOn_no_sep <;> assumption)
+  C11S.splitOn_no_sep s p hne
 
 example : ∀ o ∈ splitOn helloWorld [0x6C] none, indexOf o [0x6C] = none := splitOn_no_sep _ _ (by decide)
 example : splitOn helloWorld [0x6C] none = [[0x68, 0xE9], [], [0x6F, 0x20, 0x77, 0xF6, 0x72], [0x64]] := by decide
@@ -549,19 +551,19 @@ example : splitOn helloWorld [0x6C] (some 1) = [[0x68, 0xE9], [0x6C, 0x6F, 0x20,
 /-- `strings.TrimLeftFunc` drops the leading code points that satisfy the predicate -/
 theorem trimLeftF_encodeAll (p : Nat → Bool) (cs : List Nat) (h : Scalars cs) :
     trimLeftF p (encodeAll cs) = encodeAll (cs.dropWhile p) :=
-  by first | exact C11S.trimLeftF_encodeAll .. | (apply C11S.trimLeftF_encodeAll <;> assumption)
+  C11S.trimLeftF_encodeAll p cs h
 
 /-- `strings.TrimRightFunc` drops the trailing code points that satisfy the predicate -/
 theorem trimRightF_encodeAll (p : Nat → Bool) (cs : List Nat) (h : Scalars cs) :
     trimRightF p (encodeAll cs) = encodeAll (cs.reverse.dropWhile p).reverse :=
-  by first | exact C11S.trimRightF_encodeAll .. | (apply C11S.trimRightF_encodeAll <;> assumption)
+  C11S.trimRightF_encodeAll p cs h
 
 example : trimRightF (· == 0xE9) (encodeAll eeHee) = encodeAll [0xE9, 0xE9, 0x68] := by
   rw [trimRightF_encodeAll _ _ eeHee_scalars]; decide
 
 /-- the cutset of `trim(s, chars)` is a set of code points -/
 theorem inCutset_encodeAll (cut : List Nat) (h : Scalars cut) (r : Nat) : inCutset (encodeAll cut) r = cut.contains r :=
-  by first | exact C11S.inCutset_encodeAll .. | (apply C11S.inCutset_encodeAll <;> assumption)
+  C11S.inCutset_encodeAll cut h r
 
 example : inCutset (encodeAll [0xE9, 0x20AC]) 0x20AC = true := by
   rw [inCutset_encodeAll _ (by unfold Scalars; decide)]; decide
@@ -575,11 +577,11 @@ example : trimRightF (inCutset (encodeAll [0xE9])) (trimLeftF (inCutset (encodeA
 
 /-- trimming on the left keeps a valid string valid -/
 theorem valid_trimLeftF (p : Nat → Bool) {s : Bytes} (hs : validUTF8 s = true) : validUTF8 (trimLeftF p s) = true :=
-  by first | exact C11S.valid_trimLeftF .. | (apply C11S.valid_trimLeftF <;> assumption)
+  C11S.valid_trimLeftF p hs
 
 /-- trimming on the right keeps a valid string valid -/
 theorem valid_trimRightF (p : Nat → Bool) {s : Bytes} (hs : validUTF8 s = true) : validUTF8 (trimRightF p s) = true :=
-  by first | exact C11S.valid_trimRightF .. | (apply C11S.valid_trimRightF <;> assumption)
+  C11S.valid_trimRightF p hs
 
 example : validUTF8 (trimLeftF isSpaceRune [0x20, 0xC2, 0xA0, 0xC3, 0xA9]) = true := valid_trimLeftF _ (by decide)
 example : trimLeftF isSpaceRune [0x20, 0xC2, 0xA0, 0xC3, 0xA9] = [0xC3, 0xA9] := by decide
@@ -591,7 +593,7 @@ example : trimRightF isSpaceRune [0xC3, 0xA9, 0xE3, 0x80, 0x80] = [0xC3, 0xA9] :
 theorem stringsReplace_encodeAll (cs os ns : List Nat) (hcs : Scalars cs) (hos : Scalars os) (hns : Scalars ns)
     (n : Option Nat) :
     stringsReplace (encodeAll cs) (encodeAll os) (encodeAll ns) n = encodeAll (cpReplace cs os ns n) :=
-  by first | exact C11S.stringsReplace_encodeAll .. | (apply C11S.stringsReplace_encodeAll <;> assumption)
+  C11S.stringsReplace_encodeAll cs os ns hcs hos hns n
 
 /-- replace("héllo", "l", "ł") = "héłło" (ł = U+0142) -/
 example : cpReplace C11.hello [0x6C] [0x142] none = [0x68, 0xE9, 0x142, 0x142, 0x6F] := by decide
@@ -607,7 +609,7 @@ example : cpReplace C11.hello [] [0x2D] (some 3) = [0x2D, 0x68, 0x2D, 0xE9, 0x2D
 /-- replacing within scalar values by scalar values gives scalar values -/
 theorem cpReplace_scalars (cs os ns : List Nat) (hcs : Scalars cs) (hos : Scalars os) (hns : Scalars ns)
     (n : Option Nat) : Scalars (cpReplace cs os ns n) :=
-  by first | exact C11S.cpReplace_scalars .. | (apply C11S.cpReplace_scalars <;> assumption)
+  C11S.cpReplace_scalars cs os ns hcs hos hns n
 
 example : Scalars (cpReplace C11.hello [0x6C] [0x142] none) :=
   cpReplace_scalars _ _ _ C11.hello_scalars (by unfold Scalars; decide) (by unfold Scalars; decide) _
@@ -615,7 +617,7 @@ example : Scalars (cpReplace C11.hello [0x6C] [0x142] none) :=
 /-- `replace` on valid strings gives a valid string -/
 theorem valid_stringsReplace {s old new : Bytes} (hs : validUTF8 s = true) (ho : validUTF8 old = true)
     (hn : validUTF8 new = true) (n : Option Nat) : validUTF8 (stringsReplace s old new n) = true :=
-  by first | exact C11S.valid_stringsReplace .. | (apply C11S.valid_stringsReplace <;> assumption)
+  C11S.valid_stringsReplace hs ho hn n
 
 example : validUTF8 (stringsReplace (encodeAll C11.hello) [0x6C] [0xC5, 0x82] (some 1)) = true :=
   valid_stringsReplace (Utf8.validUTF8_encodeAll _ C11.hello_scalars) (by decide) (by decide) _
@@ -625,7 +627,7 @@ example : stringsReplace [0xC3, 0xA9] [0xA9] [] none = [0xC3] := by decide
 /-- `join` acts on code points: joining encodings with an encoded separator is the encoding of the join -/
 theorem joinStrs_encodeAll (sep : List Nat) (ss : List (List Nat)) :
     joinStrs (encodeAll sep) (ss.map encodeAll) = encodeAll (joinStrs sep ss) :=
-  by first | exact C11S.joinStrs_encodeAll .. | (apply C11S.joinStrs_encodeAll <;> assumption)
+  C11S.joinStrs_encodeAll sep ss
 
 example : joinStrs (encodeAll [0xE9]) ([[0x68], [0x20AC], []].map encodeAll) = encodeAll [0x68, 0xE9, 0x20AC, 0xE9] := by
   rw [joinStrs_encodeAll]; decide
@@ -633,12 +635,12 @@ example : joinStrs (encodeAll [0xE9]) ([[0x68], [0x20AC], []].map encodeAll) = e
 /-- `lower` maps a string code point by code point (where the model covers the alphabet) -/
 theorem lower_codepoints (cs : List Nat) (h : Scalars cs) (rs : List Nat) (hm : mapRunes lowerRune cs = some rs) :
     lower (.str (encodeAll cs)) = .ok (.str (encodeAll rs)) :=
-  by first | exact C11S.lower_codepoints .. | (apply C11S.lower_codepoints <;> assumption)
+  C11S.lower_codepoints cs h rs hm
 
 /-- `upper` maps a string code point by code point (where the model covers the alphabet) -/
 theorem upper_codepoints (cs : List Nat) (h : Scalars cs) (rs : List Nat) (hm : mapRunes upperRune cs = some rs) :
     upper (.str (encodeAll cs)) = .ok (.str (encodeAll rs)) :=
-  by first | exact C11S.upper_codepoints .. | (apply C11S.upper_codepoints <;> assumption)
+  C11S.upper_codepoints cs h rs hm
 
 /-- upper("héllo") = "HÉLLO", lower("HÉ") = "hé"; pure ASCII goes through the fast path with the same result -/
 example : upper (.str (encodeAll C11.hello)) = .ok (.str (encodeAll [0x48, 0xC9, 0x4C, 0x4C, 0x4F])) :=
@@ -650,19 +652,19 @@ example : lower (.str (encodeAll [0x48, 0x49])) = .ok (.str (encodeAll [0x68, 0x
 
 /-- `lower` of ANY string (valid or not) gives valid UTF-8 -/
 theorem valid_lower {s out : Bytes} (h : lower (.str s) = .ok (.str out)) : validUTF8 out = true :=
-  by first | exact C11S.valid_lower .. | (apply C11S.valid_lower <;> assumption)
+  C11S.valid_lower h
 
 /-- `upper` of ANY string (valid or not) gives valid UTF-8 -/
 theorem valid_upper {s out : Bytes} (h : upper (.str s) = .ok (.str out)) : validUTF8 out = true :=
-  by first | exact C11S.valid_upper .. | (apply C11S.valid_upper <;> assumption)
+  C11S.valid_upper h
 
 /-- a successful `lower` of a string is a string -/
 theorem lower_str_shape (s : Bytes) (v : Val) (h : lower (.str s) = .ok v) : ∃ out, v = .str out :=
-  by first | exact C11S.lower_str_shape .. | (apply C11S.lower_str_shape <;> assumption)
+  C11S.lower_str_shape s v h
 
 /-- a successful `upper` of a string is a string -/
 theorem upper_str_shape (s : Bytes) (v : Val) (h : upper (.str s) = .ok v) : ∃ out, v = .str out :=
-  by first | exact C11S.upper_str_shape .. | (apply C11S.upper_str_shape <;> assumption)
+  C11S.upper_str_shape s v h
 
 /-- lower of the invalid "H\xC3" is "h�": valid -/
 example : lower (.str [0x48, 0xC3]) = .ok (.str [0x68, 0xEF, 0xBF, 0xBD]) := rfl
@@ -758,7 +760,7 @@ example : hasSuffix (encodeAll [0xE9]) (encodeAll [0xA9]) = false ∧ bytesConta
 /-- `length` of the renamed string is the same number, although the byte length differs -/
 theorem length_rename (f : Nat → Nat) (cs : List Nat) (h : Scalars cs) (h' : Scalars (cs.map f)) :
     length (.str (encodeAll (cs.map f))) = mapRes (renV f) (length (.str (encodeAll cs))) :=
-  by first | exact C11R.length_rename .. | (apply C11R.length_rename <;> assumption)
+  C11R.length_rename f cs h h'
 
 /-- length("θйμμο") = length("héllo") = 5 (10 and 6 bytes) -/
 example : length (.str [0xCE, 0xB8, 0xD0, 0xB9, 0xCE, 0xBC, 0xCE, 0xBC, 0xCE, 0xBF]) = .ok (.num (.int .i64 5)) :=
@@ -767,7 +769,7 @@ example : length (.str [0xCE, 0xB8, 0xD0, 0xB9, 0xCE, 0xBC, 0xCE, 0xBC, 0xCE, 0x
 /-- `reverse` of the renamed string is the renamed reverse -/
 theorem reverse_rename (f : Nat → Nat) (cs : List Nat) (h : Scalars cs) (h' : Scalars (cs.map f)) :
     reverse (.str (encodeAll (cs.map f))) = mapRes (renV f) (reverse (.str (encodeAll cs))) :=
-  by first | exact C11R.reverse_rename .. | (apply C11R.reverse_rename <;> assumption)
+  C11R.reverse_rename f cs h h'
 
 /-- reverse("θйμμο") = "ομμйθ" = renamed "olléh" -/
 example : reverse (.str [0xCE, 0xB8, 0xD0, 0xB9, 0xCE, 0xBC, 0xCE, 0xBC, 0xCE, 0xBF])
@@ -777,7 +779,7 @@ example : reverse (.str [0xCE, 0xB8, 0xD0, 0xB9, 0xCE, 0xBC, 0xCE, 0xBC, 0xCE, 0
 /-- a step-1 slice with the same bounds selects the same positions -/
 theorem slice_rename (f : Nat → Nat) (cs : List Nat) (h : Scalars cs) (h' : Scalars (cs.map f)) (start stop : Int) :
     slice (.str (encodeAll (cs.map f))) start stop = mapRes (renV f) (slice (.str (encodeAll cs)) start stop) :=
-  by first | exact C11R.slice_rename .. | (apply C11R.slice_rename <;> assumption)
+  C11R.slice_rename f cs h h' start stop
 
 /-- "θйμμο"[1:3] = "йμ" = renamed "él": bytes 2..6 there, bytes 1..4 here -/
 example : slice (.str [0xCE, 0xB8, 0xD0, 0xB9, 0xCE, 0xBC, 0xCE, 0xBC, 0xCE, 0xBF]) 1 3 = .ok (.str [0xD0, 0xB9, 0xCE, 0xBC]) :=
@@ -788,7 +790,7 @@ theorem sliceStep_rename (f : Nat → Nat) (cs : List Nat) (h : Scalars cs) (h' 
     (start stop step : Int) (hs : step ≠ 0) (hmin : -2 ^ 63 ≤ step) (hlen : cs.length < 2 ^ 63) :
     sliceStep (.str (encodeAll (cs.map f))) start stop step
       = mapRes (renV f) (sliceStep (.str (encodeAll cs)) start stop step) :=
-  by first | exact C11R.sliceStep_rename .. | (apply C11R.sliceStep_rename <;> assumption)
+  C11R.sliceStep_rename f cs h h' start stop step hs hmin hlen
 
 /-- "θйμμο"[::-2] = "ομθ" = renamed "olh" -/
 example : sliceStep (.str [0xCE, 0xB8, 0xD0, 0xB9, 0xCE, 0xBC, 0xCE, 0xBC, 0xCE, 0xBF]) (2 ^ 63 - 1) (-2 ^ 63) (-2)
@@ -806,14 +808,14 @@ theorem find_first_rename {f : Nat → Nat} (hf : Inj f) (cs ps : List Nat) (hcs
     (hcs' : Scalars (cs.map f)) (hps : Scalars ps) (hps' : Scalars (ps.map f)) :
     findFirst (.str (encodeAll (cs.map f))) (.str (encodeAll (ps.map f)))
       = findFirst (.str (encodeAll cs)) (.str (encodeAll ps)) :=
-  by first | exact C11R.find_first_rename .. | (apply C11R.find_first_rename <;> assumption)
+  C11R.find_first_rename hf cs ps hcs hcs' hps hps'
 
 /-- `find_last(s, p)` on the renamed subject and pattern: the same code point position (or null) -/
 theorem find_last_rename {f : Nat → Nat} (hf : Inj f) (cs ps : List Nat) (hcs : Scalars cs)
     (hcs' : Scalars (cs.map f)) (hps : Scalars ps) (hps' : Scalars (ps.map f)) :
     findLast (.str (encodeAll (cs.map f))) (.str (encodeAll (ps.map f)))
       = findLast (.str (encodeAll cs)) (.str (encodeAll ps)) :=
-  by first | exact C11R.find_last_rename .. | (apply C11R.find_last_rename <;> assumption)
+  C11R.find_last_rename hf cs ps hcs hcs' hps hps'
 
 /-- find_first("θйμμο", "μ") = find_first("héllo", "l") = 2 (byte offsets 4 and 3);
     find_last = 3 (byte offsets 6 and 4) -/
@@ -831,7 +833,7 @@ theorem find_from_rename {f : Nat → Nat} (hf : Inj f) (last : Bool) (cs ps : L
     (hcs' : Scalars (cs.map f)) (hps : Scalars ps) (hps' : Scalars (ps.map f)) (i : Int) :
     findFrom last (.str (encodeAll (cs.map f))) (.str (encodeAll (ps.map f))) (.num (.int .i64 i))
       = findFrom last (.str (encodeAll cs)) (.str (encodeAll ps)) (.num (.int .i64 i)) :=
-  by first | exact C11R.find_from_rename .. | (apply C11R.find_from_rename <;> assumption)
+  C11R.find_from_rename hf last cs ps hcs hcs' hps hps' i
 
 /-- find_first("θйμμο", "μ", 3) = find_first("héllo", "l", 3) = 3: start 3 is byte 6 there, byte 4 here -/
 example : findFirstFrom (.str [0xCE, 0xB8, 0xD0, 0xB9, 0xCE, 0xBC, 0xCE, 0xBC, 0xCE, 0xBF]) (.str [0xCE, 0xBC])
@@ -849,7 +851,7 @@ theorem find_between_rename {f : Nat → Nat} (hf : Inj f) (last : Bool) (cs ps 
     findBetween last (.str (encodeAll (cs.map f))) (.str (encodeAll (ps.map f))) (.num (.int .i64 i))
         (.num (.int .i64 j))
       = findBetween last (.str (encodeAll cs)) (.str (encodeAll ps)) (.num (.int .i64 i)) (.num (.int .i64 j)) :=
-  by first | exact C11R.find_between_rename .. | (apply C11R.find_between_rename <;> assumption)
+  C11R.find_between_rename hf last cs ps hcs hcs' hps hps' i j
 
 /-- find_first("θйμμο", "ο", 0, 5) = find_first("héllo", "o", 0, 5) = 4; with finish 4 (exclusive) both are null -/
 example : findFirstBetween (.str [0xCE, 0xB8, 0xD0, 0xB9, 0xCE, 0xBC, 0xCE, 0xBC, 0xCE, 0xBF]) (.str [0xCE, 0xBF])
@@ -866,7 +868,7 @@ theorem starts_with_rename {f : Nat → Nat} (hf : Inj f) (cs ps : List Nat) (hc
     (hcs' : Scalars (cs.map f)) (hps : Scalars ps) (hps' : Scalars (ps.map f)) :
     startsWith (.str (encodeAll (cs.map f))) (.str (encodeAll (ps.map f)))
       = startsWith (.str (encodeAll cs)) (.str (encodeAll ps)) :=
-  by first | exact C11R.starts_with_rename .. | (apply C11R.starts_with_rename <;> assumption)
+  C11R.starts_with_rename hf cs ps hcs hcs' hps hps'
 
 /-- starts_with("θйμμο", "θй") = starts_with("héllo", "hé") = true -/
 example : startsWith (.str [0xCE, 0xB8, 0xD0, 0xB9, 0xCE, 0xBC, 0xCE, 0xBC, 0xCE, 0xBF]) (.str [0xCE, 0xB8, 0xD0, 0xB9])
@@ -879,7 +881,7 @@ theorem ends_with_rename {f : Nat → Nat} (hf : Inj f) (cs ps : List Nat) (hcs 
     (hcs' : Scalars (cs.map f)) (hps : Scalars ps) (hps' : Scalars (ps.map f)) :
     endsWith (.str (encodeAll (cs.map f))) (.str (encodeAll (ps.map f)))
       = endsWith (.str (encodeAll cs)) (.str (encodeAll ps)) :=
-  by first | exact C11R.ends_with_rename .. | (apply C11R.ends_with_rename <;> assumption)
+  C11R.ends_with_rename hf cs ps hcs hcs' hps hps'
 
 /-- ends_with("θйμμο", "μο") = ends_with("héllo", "lo") = true (the last 4 bytes there, the last 2 here) -/
 example : endsWith (.str [0xCE, 0xB8, 0xD0, 0xB9, 0xCE, 0xBC, 0xCE, 0xBC, 0xCE, 0xBF]) (.str [0xCE, 0xBC, 0xCE, 0xBF])
@@ -892,7 +894,7 @@ theorem contains_rename {f : Nat → Nat} (hf : Inj f) (cs ps : List Nat) (hcs :
     (hcs' : Scalars (cs.map f)) (hps : Scalars ps) (hps' : Scalars (ps.map f)) :
     contains (.str (encodeAll (cs.map f))) (.str (encodeAll (ps.map f)))
       = contains (.str (encodeAll cs)) (.str (encodeAll ps)) :=
-  by first | exact C11R.contains_rename .. | (apply C11R.contains_rename <;> assumption)
+  C11R.contains_rename hf cs ps hcs hcs' hps hps'
 
 /-- contains("θйμμο", "йμ") = contains("héllo", "él") = true; the Latin "l" is not in the renamed string -/
 example : contains (.str [0xCE, 0xB8, 0xD0, 0xB9, 0xCE, 0xBC, 0xCE, 0xBC, 0xCE, 0xBF]) (.str [0xD0, 0xB9, 0xCE, 0xBC])
@@ -909,7 +911,7 @@ theorem pad_rename (f : Nat → Nat) (left : Bool) (cs : List Nat) (hcs : Scalar
     (hlim : w - cs.length ≤ padLimit) (orig : Val) :
     padWith left (encodeAll (cs.map f)) w (encodeRune (f p)) (renV f orig)
       = mapRes (renV f) (padWith left (encodeAll cs) w (encodeRune p) orig) :=
-  by first | exact C11R.pad_rename .. | (apply C11R.pad_rename <;> assumption)
+  C11R.pad_rename f left cs hcs hcs' p hp hp' w hw hlim orig
 
 /-- `pad_left(s, w, p)` with subject and pad character renamed: the renamed result, the width `w` (code points) unchanged -/
 theorem padLeft_rename (f : Nat → Nat) (cs : List Nat) (hcs : Scalars cs) (hcs' : Scalars (cs.map f))
@@ -917,7 +919,7 @@ theorem padLeft_rename (f : Nat → Nat) (cs : List Nat) (hcs : Scalars cs) (hcs
     (hlim : w - cs.length ≤ padLimit) :
     padLeft (.str (encodeAll (cs.map f))) (.num (.int .i64 w)) (.str (encodeRune (f p)))
       = mapRes (renV f) (padLeft (.str (encodeAll cs)) (.num (.int .i64 w)) (.str (encodeRune p))) :=
-  by first | exact C11R.padLeft_rename .. | (apply C11R.padLeft_rename <;> assumption)
+  C11R.padLeft_rename f cs hcs hcs' p hp hp' w hw hlim
 
 /-- `pad_right(s, w, p)` likewise -/
 theorem padRight_rename (f : Nat → Nat) (cs : List Nat) (hcs : Scalars cs) (hcs' : Scalars (cs.map f))
@@ -925,7 +927,7 @@ theorem padRight_rename (f : Nat → Nat) (cs : List Nat) (hcs : Scalars cs) (hc
     (hlim : w - cs.length ≤ padLimit) :
     padRight (.str (encodeAll (cs.map f))) (.num (.int .i64 w)) (.str (encodeRune (f p)))
       = mapRes (renV f) (padRight (.str (encodeAll cs)) (.num (.int .i64 w)) (.str (encodeRune p))) :=
-  by first | exact C11R.padRight_rename .. | (apply C11R.padRight_rename <;> assumption)
+  C11R.padRight_rename f cs hcs hcs' p hp hp' w hw hlim
 
 /-- pad_left("θйμμο", 7, "й") = "ййθйμμο" = renamed pad_left("héllo", 7, "é"): two pad characters in both -/
 example : padLeft (.str [0xCE, 0xB8, 0xD0, 0xB9, 0xCE, 0xBC, 0xCE, 0xBC, 0xCE, 0xBF]) (.num (.int .i64 7)) (.str [0xD0, 0xB9])
@@ -939,7 +941,7 @@ example : padRight (.str [0xCE, 0xB8, 0xD0, 0xB9, 0xCE, 0xBC, 0xCE, 0xBC, 0xCE, 
 /-- `split(s, '')`: one piece per code point, each renamed -/
 theorem split_empty_sep_rename (f : Nat → Nat) (cs : List Nat) (hcs : Scalars cs) (hcs' : Scalars (cs.map f)) :
     split (.str (encodeAll (cs.map f))) (.str []) = mapRes (renV f) (split (.str (encodeAll cs)) (.str [])) :=
-  by first | exact C11R.split_empty_sep_rename .. | (apply C11R.split_empty_sep_rename <;> assumption)
+  C11R.split_empty_sep_rename f cs hcs hcs'
 
 /-- split("θйμμο", "") = ["θ", "й", "μ", "μ", "ο"] -/
 example : split (.str [0xCE, 0xB8, 0xD0, 0xB9, 0xCE, 0xBC, 0xCE, 0xBC, 0xCE, 0xBF]) (.str []) =
@@ -951,7 +953,7 @@ theorem split_count_empty_sep_rename (f : Nat → Nat) (cs : List Nat) (hcs : Sc
     (hne : cs ≠ []) (n : Int) (hn : 0 < n) :
     splitCount (.str (encodeAll (cs.map f))) (.str []) (.num (.int .i64 n))
       = mapRes (renV f) (splitCount (.str (encodeAll cs)) (.str []) (.num (.int .i64 n))) :=
-  by first | exact C11R.split_count_empty_sep_rename .. | (apply C11R.split_count_empty_sep_rename <;> assumption)
+  C11R.split_count_empty_sep_rename f cs hcs hcs' hne n hn
 
 /-- split("θйμμο", "", 2) = ["θ", "й", "μμο"] -/
 example : splitCount (.str [0xCE, 0xB8, 0xD0, 0xB9, 0xCE, 0xBC, 0xCE, 0xBC, 0xCE, 0xBF]) (.str []) (.num (.int .i64 2)) =
@@ -964,7 +966,7 @@ theorem split_rename {f : Nat → Nat} (hf : Inj f) (cs ps : List Nat) (hcs : Sc
     (hps : Scalars ps) (hps' : Scalars (ps.map f)) :
     split (.str (encodeAll (cs.map f))) (.str (encodeAll (ps.map f)))
       = mapRes (renV f) (split (.str (encodeAll cs)) (.str (encodeAll ps))) :=
-  by first | exact C11R.split_rename .. | (apply C11R.split_rename <;> assumption)
+  C11R.split_rename hf cs ps hcs hcs' hps hps'
 
 /-- split("θйμμο", "μ") = ["θй", "", "ο"] = renamed split("héllo", "l") = ["hé", "", "o"] -/
 example : split (.str [0xCE, 0xB8, 0xD0, 0xB9, 0xCE, 0xBC, 0xCE, 0xBC, 0xCE, 0xBF]) (.str [0xCE, 0xBC])
@@ -977,7 +979,7 @@ theorem split_count_rename {f : Nat → Nat} (hf : Inj f) (cs ps : List Nat) (hc
     (hcs' : Scalars (cs.map f)) (hps : Scalars ps) (hps' : Scalars (ps.map f)) (n : Int) :
     splitCount (.str (encodeAll (cs.map f))) (.str (encodeAll (ps.map f))) (.num (.int .i64 n))
       = mapRes (renV f) (splitCount (.str (encodeAll cs)) (.str (encodeAll ps)) (.num (.int .i64 n))) :=
-  by first | exact C11R.split_count_rename .. | (apply C11R.split_count_rename <;> assumption)
+  C11R.split_count_rename hf cs ps hcs hcs' hps hps' n
 
 /-- split("θйμμο", "μ", 1) = ["θй", "μο"] -/
 example : splitCount (.str [0xCE, 0xB8, 0xD0, 0xB9, 0xCE, 0xBC, 0xCE, 0xBC, 0xCE, 0xBF]) (.str [0xCE, 0xBC]) (.num (.int .i64 1))
@@ -990,21 +992,21 @@ theorem trimLeft_rename {f : Nat → Nat} (hf : Inj f) (cs cut : List Nat) (hcs 
     (hcs' : Scalars (cs.map f)) (hcut : Scalars cut) (hcut' : Scalars (cut.map f)) (hne : cut ≠ []) :
     trimLeft (.str (encodeAll (cs.map f))) (.str (encodeAll (cut.map f)))
       = mapRes (renV f) (trimLeft (.str (encodeAll cs)) (.str (encodeAll cut))) :=
-  by first | exact C11R.trimLeft_rename .. | (apply C11R.trimLeft_rename <;> assumption)
+  C11R.trimLeft_rename hf cs cut hcs hcs' hcut hcut' hne
 
 /-- `trim_right(s, cut)` with subject and cutset renamed: the renamed result -/
 theorem trimRight_rename {f : Nat → Nat} (hf : Inj f) (cs cut : List Nat) (hcs : Scalars cs)
     (hcs' : Scalars (cs.map f)) (hcut : Scalars cut) (hcut' : Scalars (cut.map f)) (hne : cut ≠ []) :
     trimRight (.str (encodeAll (cs.map f))) (.str (encodeAll (cut.map f)))
       = mapRes (renV f) (trimRight (.str (encodeAll cs)) (.str (encodeAll cut))) :=
-  by first | exact C11R.trimRight_rename .. | (apply C11R.trimRight_rename <;> assumption)
+  C11R.trimRight_rename hf cs cut hcs hcs' hcut hcut' hne
 
 /-- `trim(s, cut)` with subject and cutset renamed: the renamed result -/
 theorem trim_rename {f : Nat → Nat} (hf : Inj f) (cs cut : List Nat) (hcs : Scalars cs)
     (hcs' : Scalars (cs.map f)) (hcut : Scalars cut) (hcut' : Scalars (cut.map f)) (hne : cut ≠ []) :
     trim (.str (encodeAll (cs.map f))) (.str (encodeAll (cut.map f)))
       = mapRes (renV f) (trim (.str (encodeAll cs)) (.str (encodeAll cut))) :=
-  by first | exact C11R.trim_rename .. | (apply C11R.trim_rename <;> assumption)
+  C11R.trim_rename hf cs cut hcs hcs' hcut hcut' hne
 
 /-- trim("θйμμο", "οθ") = "йμμ" = renamed trim("héllo", "oh") = "éll" -/
 example : trim (.str [0xCE, 0xB8, 0xD0, 0xB9, 0xCE, 0xBC, 0xCE, 0xBC, 0xCE, 0xBF]) (.str [0xCE, 0xBF, 0xCE, 0xB8])
@@ -1024,7 +1026,7 @@ theorem replace_rename {f : Nat → Nat} (hf : Inj f) (cs os ns : List Nat) (hcs
     (hns' : Scalars (ns.map f)) :
     replace (.str (encodeAll (cs.map f))) (.str (encodeAll (os.map f))) (.str (encodeAll (ns.map f)))
       = mapRes (renV f) (replace (.str (encodeAll cs)) (.str (encodeAll os)) (.str (encodeAll ns))) :=
-  by first | exact C11R.replace_rename .. | (apply C11R.replace_rename <;> assumption)
+  C11R.replace_rename hf cs os ns hcs hcs' hos hos' hns hns'
 
 /-- `replace(s, old, new, count)` for every count (negative: invalid-value in both) -/
 theorem replace_count_rename {f : Nat → Nat} (hf : Inj f) (cs os ns : List Nat) (hcs : Scalars cs)
@@ -1034,7 +1036,7 @@ theorem replace_count_rename {f : Nat → Nat} (hf : Inj f) (cs os ns : List Nat
         (.num (.int .i64 k))
       = mapRes (renV f) (replaceCount (.str (encodeAll cs)) (.str (encodeAll os)) (.str (encodeAll ns))
           (.num (.int .i64 k))) :=
-  by first | exact C11R.replace_count_rename .. | (apply C11R.replace_count_rename <;> assumption)
+  C11R.replace_count_rename hf cs os ns hcs hcs' hos hos' hns hns' k
 
 /-- replace("θйμμο", "μ", "й") = "θйййο" = renamed replace("héllo", "l", "é") = "héééo" -/
 example : replace (.str [0xCE, 0xB8, 0xD0, 0xB9, 0xCE, 0xBC, 0xCE, 0xBC, 0xCE, 0xBF]) (.str [0xCE, 0xBC]) (.str [0xD0, 0xB9])
@@ -1054,7 +1056,7 @@ theorem join_rename (f : Nat → Nat) (t : ATag) (sep : List Nat) (css : List (L
     (h : ∀ cs ∈ css, Scalars cs) :
     join (.str (encodeAll (sep.map f))) (.arr t ((css.map (fun cs => encodeAll (cs.map f))).map Val.str))
       = mapRes (renV f) (join (.str (encodeAll sep)) (.arr t ((css.map encodeAll).map Val.str))) :=
-  by first | exact C11R.join_rename .. | (apply C11R.join_rename <;> assumption)
+  C11R.join_rename f t sep css hsep h
 
 /-- join("μ", ["θ", "й"]) = "θμй" = renamed join("l", ["h", "é"]) = "hlé" -/
 example : join (.str [0xCE, 0xBC]) (.arr .plain [.str [0xCE, 0xB8], .str [0xD0, 0xB9]])
@@ -1071,7 +1073,7 @@ example : join (.str [0xCE, 0xBC]) (.arr .plain [.str [0xCE, 0xB8], .str [0xD0, 
 theorem bytesLt_rename {f : Nat → Nat} (hm : Mono f) (as bs : List Nat) (ha : Scalars as) (ha' : Scalars (as.map f))
     (hb : Scalars bs) (hb' : Scalars (bs.map f)) :
     bytesLt (encodeAll (as.map f)) (encodeAll (bs.map f)) = bytesLt (encodeAll as) (encodeAll bs) :=
-  by first | exact C11R.bytesLt_rename .. | (apply C11R.bytesLt_rename <;> assumption)
+  C11R.bytesLt_rename hm as bs ha ha' hb hb'
 
 /-- "z" < "é" and, renamed, "ϊ" (CF 8A) < "й" (D0 B9); "é" < "z" is false in both -/
 example : bytesLt [0xCF, 0x8A] [0xD0, 0xB9] = bytesLt [0x7A] [0xC3, 0xA9] :=
@@ -1085,22 +1087,22 @@ example : bytesLt (encodeAll ([0x61].map (fun c => if c = 0x61 then 0x62 else if
 /-- the same, stated with `renB` for strings that can be renamed (`Renamable`) -/
 theorem bytesLt_renB {f : Nat → Nat} (hm : Mono f) {a b : Bytes} (ha : Renamable f a) (hb : Renamable f b) :
     bytesLt (renB f a) (renB f b) = bytesLt a b :=
-  by first | exact C11R.bytesLt_renB .. | (apply C11R.bytesLt_renB <;> assumption)
+  C11R.bytesLt_renB hm ha hb
 
 /-- `max()` of an array of strings: the renamed array has the renamed maximum -/
 theorem arrayMax_rename {f : Nat → Nat} (hm : Mono f) (t : ATag) (ss : List Bytes) (h : ∀ s ∈ ss, Renamable f s) :
     arrayMax (.arr t ((ss.map (renB f)).map Val.str)) = mapRes (renV f) (arrayMax (.arr t (ss.map Val.str))) :=
-  by first | exact C11R.arrayMax_rename .. | (apply C11R.arrayMax_rename <;> assumption)
+  C11R.arrayMax_rename hm t ss h
 
 /-- `min()` likewise -/
 theorem arrayMin_rename {f : Nat → Nat} (hm : Mono f) (t : ATag) (ss : List Bytes) (h : ∀ s ∈ ss, Renamable f s) :
     arrayMin (.arr t ((ss.map (renB f)).map Val.str)) = mapRes (renV f) (arrayMin (.arr t (ss.map Val.str))) :=
-  by first | exact C11R.arrayMin_rename .. | (apply C11R.arrayMin_rename <;> assumption)
+  C11R.arrayMin_rename hm t ss h
 
 /-- `sort()` of an array of strings: the renamed array sorts to the renamed sorted array (the same permutation) -/
 theorem sortArray_rename {f : Nat → Nat} (hm : Mono f) (t : ATag) (ss : List Bytes) (h : ∀ s ∈ ss, Renamable f s) :
     sortArray (.arr t ((ss.map (renB f)).map Val.str)) = mapRes (renV f) (sortArray (.arr t (ss.map Val.str))) :=
-  by first | exact C11R.sortArray_rename .. | (apply C11R.sortArray_rename <;> assumption)
+  C11R.sortArray_rename hm t ss h
 
 /-- sort(["z", "é", "a"]) = ["a", "z", "é"] and sort(["ϊ", "й", "α"]) = ["α", "ϊ", "й"] -/
 example : sortArray (.arr .plain [.str [0xCF, 0x8A], .str [0xD0, 0xB9], .str [0xCE, 0xB1]])
@@ -1217,4 +1219,267 @@ example : splitCount (.str (encodeAll (hello.map shift))) (.str (encodeAll ([0x6
   split_count_rename_any shift_mono.toInj hello [0x6C] hello_scalars hello'_scalars (by unfold Scalars; decide)
     (by unfold Scalars; decide) (intArg_jnum (t := [0x31]) (i := 1) (by decide))
 
+/-! ## G. given valid UTF-8 input every string in the result is valid UTF-8 — the search-level invariant
+
+  `Val.Valid v` (`Jmes/Proofs/C11BValidLemmas.lean`): every string inside `v` — string values and, at any depth, object
+  keys (`keys()`, `items()` expose them) — is valid UTF-8. `INode.ValidLits n`: every literal of the expression is such a
+  value and the member keys of its multi-select hashes are valid UTF-8. The evaluator preserves `Valid`
+  (`ieval_valid`: a closure proof over all node forms and all builtins, in the style of `Proofs/Invariants.lean`), and
+  every compiled expression has `ValidLits` (`parse_validLits`, `Jmes/Proofs/C11BValidLemmas2.lean`: the lexer rejects
+  ill-formed UTF-8, un-escaping preserves validity, `encoding/json` replaces invalid bytes by U+FFFD). Together:
+  `search_valid_any` — NO hypothesis on the expression. -/
+
+open Jmes.C11V hiding ieval_valid ievalList_valid ievalFields_valid ievalMerge_valid ievalNotNull_valid ievalZip_valid evaluate_valid search_valid search_valid' encode_valid valid_out_split valid_out_splitCount valid_out_replace valid_out_replaceCount valid_out_trim valid_out_trimLeft valid_out_trimRight valid_out_trimSpace valid_out_trimSpaceLeft valid_out_trimSpaceRight valid_out_join valid_out_lower valid_out_upper valid_out_toString valid_out_toString_nonstring valid_out_keys valid_out_items valid_out_fromItems parseStringLiteral_valid parseQuotedIdentifier_valid Json.decode_valid parseJSONLiteral_valid lexAll_valid parse_validLits compile_validLits search_valid_any compiled_search_valid
+
+/-- **C11, valid in ⇒ valid out (evaluator step).** If the root, the current value and the variable bindings contain only
+    valid UTF-8 strings (object keys included) and so do the literals of the expression, every string in a result is
+    valid UTF-8. -/
+theorem ieval_valid {root cur : Val} {env : Env} {n : INode} {r : Val} (hroot : root.Valid = true)
+    (hcur : cur.Valid = true) (henv : Env.ValidVals env = true) (hn : n.ValidLits = true)
+    (h : ieval root n cur env = .ok r) : r.Valid = true :=
+  C11V.ieval_valid hroot hcur henv hn h
+
+/-- argument lists / multi-select lists: every value valid -/
+theorem ievalList_valid {root cur : Val} {env : Env} {ns : List INode} {rs : List Val} (hroot : root.Valid = true)
+    (hcur : cur.Valid = true) (henv : Env.ValidVals env = true) (hn : INode.allL INode.validHead ns = true)
+    (h : ievalList root ns cur env = .ok rs) : Val.ValidL rs = true :=
+  C11V.ievalList_valid hroot hcur henv hn h
+
+/-- members of a multi-select hash: valid values; the keys are keys of the expression -/
+theorem ievalFields_valid {root cur : Val} {env : Env} {fs : List (Bytes × INode)} {kvs : List (Bytes × Val)}
+    (hroot : root.Valid = true) (hcur : cur.Valid = true) (henv : Env.ValidVals env = true)
+    (hn : INode.allF INode.validHead fs = true) (hk : fs.all (fun kn => validUTF8 kn.1) = true)
+    (h : ievalFields root fs cur env = .ok kvs) : Val.ValidF kvs = true :=
+  C11V.ievalFields_valid hroot hcur henv hn hk h
+
+/-- `merge`: the merged object is valid when the accumulator is -/
+theorem ievalMerge_valid {root cur : Val} {env : Env} {ns : List INode} {acc kvs : List (Bytes × Val)}
+    (hroot : root.Valid = true) (hcur : cur.Valid = true) (henv : Env.ValidVals env = true)
+    (hn : INode.allL INode.validHead ns = true) (hacc : Val.ValidF acc = true)
+    (h : ievalMerge root ns cur env acc = .ok kvs) : Val.ValidF kvs = true :=
+  C11V.ievalMerge_valid hroot hcur henv hn hacc h
+
+/-- `not_null` -/
+theorem ievalNotNull_valid {root cur : Val} {env : Env} {ns : List INode} {r : Val} (hroot : root.Valid = true)
+    (hcur : cur.Valid = true) (henv : Env.ValidVals env = true) (hn : INode.allL INode.validHead ns = true)
+    (h : ievalNotNull root ns cur env = .ok r) : r.Valid = true :=
+  C11V.ievalNotNull_valid hroot hcur henv hn h
+
+/-- `zip`: the argument arrays are valid -/
+theorem ievalZip_valid {root cur : Val} {env : Env} {ns : List INode} {rs : List Val} (hroot : root.Valid = true)
+    (hcur : cur.Valid = true) (henv : Env.ValidVals env = true) (hn : INode.allL INode.validHead ns = true)
+    (h : ievalZip root ns cur env = .ok rs) : Val.ValidL rs = true :=
+  C11V.ievalZip_valid hroot hcur henv hn h
+
+/-- **C11, valid in ⇒ valid out (`Expression.Search`).** -/
+theorem evaluate_valid {n : INode} {d r : Val} (hd : d.Valid = true) (hn : n.ValidLits = true)
+    (h : evaluate n d = .ok r) : r.Valid = true :=
+  C11V.evaluate_valid hd hn h
+
+/-- **C11, valid in ⇒ valid out (`Search`).** The hypothesis on the compiled expression is about its literals only. -/
+theorem search_valid {e : Bytes} {d r : Val} (hd : d.Valid = true)
+    (hn : ∀ n, Parser.parse e = .ok n → n.ValidLits = true) (h : search e d = .ok r) : r.Valid = true :=
+  C11V.search_valid hd hn h
+
+/-- the same, with the compiled expression at hand -/
+theorem search_valid' {e : Bytes} {n : INode} {d r : Val} (hd : d.Valid = true) (hp : compile e = .ok n)
+    (hn : n.ValidLits = true) (h : search e d = .ok r) : r.Valid = true :=
+  C11V.search_valid' hd hp hn h
+
+
+/-- the hypotheses are satisfiable and the conclusion is what one expects: `split(@, 'ö')` on "héllo wörld" is
+    ["héllo w", "rld"] -/
+example : evaluate splitOnOe (.str helloWorldB) =
+    .ok (.arr .plain [.str [0x68, 0xC3, 0xA9, 0x6C, 0x6C, 0x6F, 0x20, 0x77], .str [0x72, 0x6C, 0x64]]) := by
+  with_unfolding_all rfl
+example : ∀ r, evaluate splitOnOe (.str helloWorldB) = .ok r → r.Valid = true :=
+  fun _ h => evaluate_valid (by decide) (by decide) h
+/-- the hypothesis on the data matters: slicing the invalid string `C3 41` at `[0:1]` gives the lone byte `C3` -/
+example : evaluate (.sliceCurrent 0 1) (.str [0xC3, 0x41]) = .ok (.str [0xC3]) := by with_unfolding_all rfl
+example : (Val.str [0xC3, 0x41]).Valid = false ∧ (Val.str [0xC3]).Valid = false := by decide
+/-- the hypothesis on the literals matters (for hand-made nodes; compiled ones always satisfy it): joining with an
+    invalid separator -/
+example : evaluate (.call .join [.lit (.str [0xFF]), .current]) (.arr .plain [.str [0x61], .str [0x62]]) =
+    .ok (.str [0x61, 0xFF, 0x62]) := by with_unfolding_all rfl
+example : (INode.call .join [.lit (.str [0xFF]), .current]).ValidLits = false := by decide
+/-- object keys count: an object with an invalid key is not a valid value, `keys` would expose it as a string -/
+example : (Val.obj [([0xFF], .null)]).Valid = false := by decide
+example : keys (.obj [([0xFF], .null)]) = .ok (.arr .enum [.str [0xFF]]) := rfl
+
+/-! ### per function (the functions not covered by `C11.valid_out_*`) -/
+
+/-- `json.Marshal` (behind `to_string`) writes valid UTF-8 for ANY value: strings are copied code point by code point,
+    an invalid byte becomes the escape `\ufffd`; numbers are ASCII -/
+theorem encode_valid (v : Val) {b : Bytes} (h : Json.encode v = .ok b) : validUTF8 b = true := C11V.encode_valid v h
+
+/-- to_string([<FF>]) is the valid text `["\ufffd"]` -/
+example : toStringV (.arr .plain [.str [0xFF]]) = .ok (.str [0x5B, 0x22, 0x5C, 0x75, 0x66, 0x66, 0x66, 0x64, 0x22, 0x5D]) := by
+  with_unfolding_all rfl
+
+/-- `split(s, sep)`, any separator (empty or not): valid pieces -/
+theorem valid_out_split {s p : Bytes} (hs : validUTF8 s = true) (hp : validUTF8 p = true) {r : Val}
+    (h : split (.str s) (.str p) = .ok r) : r.Valid = true := C11V.valid_out_split hs hp h
+
+/-- `split(s, sep, n)`, any count value -/
+theorem valid_out_splitCount {s p : Bytes} (hs : validUTF8 s = true) (hp : validUTF8 p = true) (n : Val) {r : Val}
+    (h : splitCount (.str s) (.str p) n = .ok r) : r.Valid = true := C11V.valid_out_splitCount hs hp n h
+
+example : ∀ r, split (.str helloWorldB) (.str [0xC3, 0xB6]) = .ok r → r.Valid = true :=
+  fun _ h => valid_out_split (by decide) (by decide) h
+/-- the hypothesis on the separator matters: the invalid separator `A9` cuts "é" = `C3 A9` in two -/
+example : split (.str [0xC3, 0xA9]) (.str [0xA9]) = .ok (.arr .plain [.str [0xC3], .str []]) := by
+  with_unfolding_all rfl
+
+/-- `replace(s, old, new)` -/
+theorem valid_out_replace {s old new : Bytes} (hs : validUTF8 s = true) (ho : validUTF8 old = true)
+    (hn : validUTF8 new = true) {r : Val} (h : replace (.str s) (.str old) (.str new) = .ok r) : r.Valid = true :=
+  C11V.valid_out_replace hs ho hn h
+
+/-- `replace(s, old, new, n)`, any count value -/
+theorem valid_out_replaceCount {s old new : Bytes} (hs : validUTF8 s = true) (ho : validUTF8 old = true)
+    (hn : validUTF8 new = true) (n : Val) {r : Val}
+    (h : replaceCount (.str s) (.str old) (.str new) n = .ok r) : r.Valid = true :=
+  C11V.valid_out_replaceCount hs ho hn n h
+
+example : replace (.str [0x68, 0xC3, 0xA9]) (.str [0xC3, 0xA9]) (.str [0x65]) = .ok (.str [0x68, 0x65]) := by
+  with_unfolding_all rfl
+example : ∀ r, replace (.str [0x68, 0xC3, 0xA9]) (.str [0xC3, 0xA9]) (.str [0x65]) = .ok r → r.Valid = true :=
+  fun _ h => valid_out_replace (by decide) (by decide) (by decide) h
+
+/-- `trim(s, cut)` — the cutset may be any value: an invalid cutset cannot make the result invalid -/
+theorem valid_out_trim {s : Bytes} (hs : validUTF8 s = true) (cut : Val) {r : Val}
+    (h : trim (.str s) cut = .ok r) : r.Valid = true := C11V.valid_out_trim hs cut h
+/-- `trim_left(s, cut)` -/
+theorem valid_out_trimLeft {s : Bytes} (hs : validUTF8 s = true) (cut : Val) {r : Val}
+    (h : trimLeft (.str s) cut = .ok r) : r.Valid = true := C11V.valid_out_trimLeft hs cut h
+/-- `trim_right(s, cut)` -/
+theorem valid_out_trimRight {s : Bytes} (hs : validUTF8 s = true) (cut : Val) {r : Val}
+    (h : trimRight (.str s) cut = .ok r) : r.Valid = true := C11V.valid_out_trimRight hs cut h
+/-- `trim(s)`, `trim_left(s)`, `trim_right(s)`: the default (Unicode white space) cutset -/
+theorem valid_out_trimSpace {s : Bytes} (hs : validUTF8 s = true) {r : Val}
+    (h : trimSpace (.str s) = .ok r) : r.Valid = true := C11V.valid_out_trimSpace hs h
+theorem valid_out_trimSpaceLeft {s : Bytes} (hs : validUTF8 s = true) {r : Val}
+    (h : trimSpaceLeft (.str s) = .ok r) : r.Valid = true := C11V.valid_out_trimSpaceLeft hs h
+theorem valid_out_trimSpaceRight {s : Bytes} (hs : validUTF8 s = true) {r : Val}
+    (h : trimSpaceRight (.str s) = .ok r) : r.Valid = true := C11V.valid_out_trimSpaceRight hs h
+
+/-- trim("éhé", "é") = "h"; trim("\u00a0h\u2003") = "h" (no-break space `C2 A0`, em space `E2 80 83`) -/
+example : trim (.str [0xC3, 0xA9, 0x68, 0xC3, 0xA9]) (.str [0xC3, 0xA9]) = .ok (.str [0x68]) := by
+  with_unfolding_all rfl
+example : trimSpace (.str [0xC2, 0xA0, 0x68, 0xE2, 0x80, 0x83]) = .ok (.str [0x68]) := by with_unfolding_all rfl
+example : ∀ r, trimSpace (.str [0xC2, 0xA0, 0x68, 0xE2, 0x80, 0x83]) = .ok r → r.Valid = true :=
+  fun _ h => valid_out_trimSpace (by decide) h
+/-- the hypothesis matters: nothing is trimmed from this invalid string and it comes back as it is -/
+example : trimSpace (.str [0xFF]) = .ok (.str [0xFF]) := by with_unfolding_all rfl
+
+/-- `join(sep, array)` -/
+theorem valid_out_join {sep : Bytes} {xs : Val} (hsep : validUTF8 sep = true) (hxs : xs.Valid = true) {r : Val}
+    (h : join (.str sep) xs = .ok r) : r.Valid = true := C11V.valid_out_join hsep hxs h
+
+example : ∀ r, join (.str [0xC3, 0xA9]) (.arr .plain [.str [0x61], .str [0xE2, 0x82, 0xAC]]) = .ok r → r.Valid = true :=
+  fun _ h => valid_out_join (by decide) (by decide) h
+
+/-- `lower` / `upper`: valid output whatever the input (outside the modelled alphabets the model answers
+    `.unmodelled`, never a string) -/
+theorem valid_out_lower (v : Val) {r : Val} (h : lower v = .ok r) : r.Valid = true := C11V.valid_out_lower v h
+theorem valid_out_upper (v : Val) {r : Val} (h : upper v = .ok r) : r.Valid = true := C11V.valid_out_upper v h
+
+/-- upper("é") = "É" (`C3 89`) -/
+example : upper (.str [0xC3, 0xA9]) = .ok (.str [0xC3, 0x89]) := by with_unfolding_all rfl
+example : ∀ r, upper (.str [0xC3, 0xA9]) = .ok r → r.Valid = true := fun _ h => valid_out_upper _ h
+
+/-- `to_string`: a string argument is returned unchanged (so it must be valid); every other argument is serialised to
+    JSON text, valid whatever the value contains (`valid_out_toString_nonstring`) -/
+theorem valid_out_toString {v : Val} (hv : v.Valid = true) {r : Val} (h : toStringV v = .ok r) : r.Valid = true :=
+  C11V.valid_out_toString hv h
+theorem valid_out_toString_nonstring {v : Val} (hv : ∀ s, v ≠ .str s) {r : Val} (h : toStringV v = .ok r) :
+    r.Valid = true := C11V.valid_out_toString_nonstring hv h
+
+example : ∀ r, toStringV (.arr .plain [.str [0xFF]]) = .ok r → r.Valid = true :=
+  fun _ h => valid_out_toString_nonstring (fun _ e => by cases e) h
+
+/-- `keys`, `items`, `from_items`: object keys become strings and strings become keys -/
+theorem valid_out_keys {v : Val} (hv : v.Valid = true) {r : Val} (h : keys v = .ok r) : r.Valid = true :=
+  C11V.valid_out_keys hv h
+theorem valid_out_items {v : Val} (hv : v.Valid = true) {r : Val} (h : items v = .ok r) : r.Valid = true :=
+  C11V.valid_out_items hv h
+theorem valid_out_fromItems {v : Val} (hv : v.Valid = true) {r : Val} (h : fromItems v = .ok r) : r.Valid = true :=
+  C11V.valid_out_fromItems hv h
+
+example : keys (.obj [([0xC3, 0xA9], .null)]) = .ok (.arr .enum [.str [0xC3, 0xA9]]) := rfl
+example : ∀ r, keys (.obj [([0xC3, 0xA9], .null)]) = .ok r → r.Valid = true := fun _ h => valid_out_keys (by decide) h
+
+/-! ### the expression side: every compiled expression has valid literals -/
+
+/-- `parseStringLiteral` only removes backslashes: a valid token body gives a valid string -/
+theorem parseStringLiteral_valid {s : Bytes} (h : validUTF8 (stripDelims s) = true) :
+    validUTF8 (parseStringLiteral s) = true :=
+  C11V.parseStringLiteral_valid h
+
+/-- `'a\é'`: the backslash before a non-ASCII code point stays, the code point is not cut -/
+example : parseStringLiteral [0x27, 0x61, 0x5C, 0xC3, 0xA9, 0x27] = [0x61, 0x5C, 0xC3, 0xA9] := by decide
+
+/-- `parseQuotedIdentifier` un-escapes byte-wise between ASCII backslashes: a valid token body gives a valid name -/
+theorem parseQuotedIdentifier_valid {s k : Bytes} (hs : validUTF8 (stripDelims s) = true)
+    (h : parseQuotedIdentifier s = some k) : validUTF8 k = true :=
+  C11V.parseQuotedIdentifier_valid hs h
+
+/-- `"aéé"` is the name `aéé` -/
+example : parseQuotedIdentifier [0x22, 0x61, 0x5C, 0x75, 0x30, 0x30, 0x65, 0x39, 0xC3, 0xA9, 0x22] =
+    some [0x61, 0xC3, 0xA9, 0xC3, 0xA9] := by decide +kernel
+
+/-- **every value decoded from JSON text is valid**, keys included, for any text -/
+theorem Json.decode_valid {s : Bytes} {v : Val} (h : Json.decode s = some v) : v.Valid = true :=
+  C11V.Json.decode_valid h
+
+/-- the literal between backticks is a valid value -/
+theorem parseJSONLiteral_valid {s : Bytes} {v : Val} (h : parseJSONLiteral s = some v) : v.Valid = true :=
+  C11V.parseJSONLiteral_valid h
+
+/-- the JSON text `"\ud800"` (a lone surrogate escape) decodes to U+FFFD -/
+example : (match Json.decode [0x22, 0x5C, 0x75, 0x64, 0x38, 0x30, 0x30, 0x22] with
+    | some (.str [0xEF, 0xBF, 0xBD]) => true
+    | _ => false) = true := by decide +kernel
+
+/-- **the lexer validates: every token it hands to the parser is valid UTF-8**, whatever the expression bytes -/
+theorem lexAll_valid {e : Bytes} {ts : List Token} {err : Option LexErr} (h : lexAll e = (ts, err)) :
+    ∀ t ∈ ts, validUTF8 t.value = true :=
+  C11V.lexAll_valid h
+
+/-- an invalid byte in the expression stops the lexer: no token is produced from it -/
+example : lexAll [0x61, 0x20, 0xFF] = ([⟨.unquotedIdentifier, [0x61]⟩], some .invalidRune) := by decide +kernel
+
+/-- **the literals (and multi-select keys) of a compiled expression are valid UTF-8, for ANY expression bytes**: the
+    lexer rejects ill-formed UTF-8, the un-escaping routines preserve validity, `encoding/json` replaces what is left -/
+theorem parse_validLits {expr : Bytes} {n : INode} (h : Parser.parse expr = .ok n) : n.ValidLits = true :=
+  C11V.parse_validLits h
+
+/-- the same for `compile` -/
+theorem compile_validLits {expr : Bytes} {n : INode} (h : compile expr = .ok n) : n.ValidLits = true :=
+  C11V.compile_validLits h
+
+/-- **C11, valid in ⇒ valid out, with no hypothesis on the expression**: whatever bytes the expression consists of,
+    if every string in the data (object keys included) is valid UTF-8, so is every string in the result. -/
+theorem search_valid_any {e : Bytes} {d r : Val} (hd : d.Valid = true) (h : search e d = .ok r) : r.Valid = true :=
+  C11V.search_valid_any hd h
+
+/-- … and through a compiled expression -/
+theorem compiled_search_valid {e : Bytes} {n : INode} {d r : Val} (hc : compile e = .ok n) (hd : d.Valid = true)
+    (h : evaluate n d = .ok r) : r.Valid = true :=
+  C11V.compiled_search_valid hc hd h
+
+
+/-- ``split(@, 'ö')`` compiled from its text and run through `search` -/
+example : ∀ r, search [0x73, 0x70, 0x6C, 0x69, 0x74, 0x28, 0x40, 0x2C, 0x20, 0x27, 0xC3, 0xB6, 0x27, 0x29]
+    (.str helloWorldB) = .ok r → r.Valid = true := fun _ h => search_valid_any (by decide) h
+/-- an expression with an ill-formed byte inside a raw string literal (`'\xFF'`) does not compile -/
+example : (match compile [0x27, 0xFF, 0x27] with | .error _ => true | .ok _ => false) = true := by decide +kernel
+/-- the JSON literal `` `"\ud800"` `` (a lone surrogate escape) compiles to the literal U+FFFD -/
+example : (match compile [0x60, 0x22, 0x5C, 0x75, 0x64, 0x38, 0x30, 0x30, 0x22, 0x60] with
+    | .ok (.lit (.str [0xEF, 0xBF, 0xBD])) => true
+    | _ => false) = true := by decide +kernel
+/-- the hypothesis on the data is still needed: `@` on an invalid string returns it -/
+example : (match search [0x40] (.str [0xFF]) with | .ok (.str [0xFF]) => true | _ => false) = true := by decide +kernel
+
 end Jmes.C11B
+
